@@ -17,6 +17,7 @@ struct MArr {
 	std::vector<i64> v;          // canonical (row-major) order
 	int              arena = 0;
 	bool             dirty = false;  // target of a failed operation: valid but unspecified
+	bool             moved_from = false;  // emptied by a move and not yet given a new value
 	long count() const {
 		long c = 1;
 		for(int i = 0; i < D; ++i) c *= n[i];
